@@ -65,8 +65,8 @@ Proof.
   intros Ho HE HI HI' HP HP' H.
   assert (HR : PR quietA (s, []) (s', outs)).
   { pose proof H as H0. destruct o; try destruct Ho; cbn [step] in H0.
-    - eapply handle_submit_array_PR; [|exact H0]. intros w m Hm; exact Hm.
-    - destruct (bad_graph_rq _ _); [inversion H0; subst; apply PR_same; try reflexivity|]. eapply handle_submit_graph_PR; [|exact H0]. intros w m Hm; exact Hm.
+    - destruct (bad_submit_lengths _ _); [inversion H0; subst; apply PR_same; try reflexivity|]. eapply handle_submit_array_PR; [|exact H0]. intros w m Hm; exact Hm.
+    - destruct (bad_graph_rq _ _); [inversion H0; subst; apply PR_same; try reflexivity|]. destruct (dead_dep _ _ _); [inversion H0; subst; apply PR_same; try reflexivity|]. eapply handle_submit_graph_PR; [|exact H0]. intros w m Hm; exact Hm.
     - eapply handle_open_PR; exact H0.
     - eapply handle_close_PR; exact H0.
     - eapply handle_cancel_PR; [|exact H0]. intros w m Hm; exact Hm.
